@@ -3,14 +3,21 @@ package props
 import (
 	"errors"
 	"fmt"
+	"sort"
+	"strings"
 	"testing"
+
+	"github.com/docker/docker/api/types"
 
 	"pgregory.net/rapid"
 
+	"github.com/tdakkota/docker-logql/internal/lokiapi"
 	"github.com/tdakkota/docker-logql/verifharness/canon"
 	"github.com/tdakkota/docker-logql/verifharness/datagen"
+	"github.com/tdakkota/docker-logql/verifharness/dl"
 	"github.com/tdakkota/docker-logql/verifharness/eng"
 	"github.com/tdakkota/docker-logql/verifharness/evid"
+	"github.com/tdakkota/docker-logql/verifharness/fakedocker"
 	"github.com/tdakkota/docker-logql/verifharness/gen"
 	"github.com/tdakkota/docker-logql/verifharness/mockstore"
 	"github.com/tdakkota/docker-logql/verifharness/model"
@@ -178,6 +185,75 @@ func c01Gen(t *rapid.T) LogCase {
 // TestC01 decides C01.
 func TestC01(t *testing.T) {
 	evid.Run(t, "C01", c01Gen, c01Check)
+}
+
+// c01BackendCheck is the last sentence of C01 over the storage backend of the product: the same
+// query over the same containers, once with the Docker backend evaluating the selector itself
+// and once with its capabilities hidden, so that the engine evaluates it.
+func c01BackendCheck(c C02Case) (r evid.Result) {
+	c.Metric = false
+	build := func() *fakedocker.Daemon {
+		d := &fakedocker.Daemon{}
+		mid := c.Params.Start + (c.Params.End-c.Params.Start)/2
+		for _, ct := range c.Ctrs {
+			var lines []dl.Line
+			for i := 0; i < ct.Lines; i++ {
+				text, _ := c02Line(ct.ID, i)
+				lines = append(lines, dl.Line{TS: mid + int64(i), Msg: text})
+			}
+			labels := map[string]string{}
+			for k, v := range ct.Labels {
+				labels[k] = string(v)
+			}
+			fc := dl.Ctr(ct.ID, "", labels, lines)
+			fc.Summary = types.Container{ID: ct.ID, Names: ct.Names, Image: ct.Image, ImageID: ct.ImageID, Command: ct.Command,
+				Created: ct.Created, State: ct.State, Status: ct.Status, Labels: labels}
+			d.Containers = append(d.Containers, fc)
+		}
+		return d
+	}
+	query := c02Query(c)
+	p := dl.Params{Start: c.Params.Start, End: c.Params.End, Step: c.Params.Step, Limit: -1}
+	render := func(data lokiapi.QueryResponseData, err error) (string, int) {
+		if err != nil {
+			return "error", 0
+		}
+		streams, err := canon.Streams(data)
+		if err != nil {
+			return "not streams: " + err.Error(), 0
+		}
+		var out []string
+		for _, e := range canon.Flatten(streams) {
+			out = append(out, fmt.Sprintf("%d %q {%s}", e.TS, e.Line, canon.LabelKey(e.Labels)))
+		}
+		sort.Strings(out)
+		return strings.Join(out, "\n"), len(out)
+	}
+	d1 := build()
+	data1, err1 := dl.Eval(d1, query, p)
+	rep1 := d1.Done()
+	d2 := build()
+	data2, err2 := dl.EvalEngineSide(d2, query, p)
+	d2.Done()
+	if (err1 == nil) != (err2 == nil) {
+		r.Violation = evid.Viol("C01/backend-differs", "query %s: the backend's own evaluation ended with err=%v, the engine's with err=%v", query, err1, err2)
+		return r
+	}
+	a, n := render(data1, err1)
+	b, _ := render(data2, err2)
+	r.Class(true, "real-backend")
+	r.Class(len(rep1.Calls) < len(c.Ctrs), "backend-skipped-containers")
+	_ = n
+	r.NonTrivial = len(rep1.Calls) < len(c.Ctrs)
+	if a != b {
+		r.Violation = evid.Viol("C01/backend-differs", "query %s over %d containers: evaluated by the Docker backend itself:\n%s\n--- evaluated by the engine on its behalf:\n%s", query, len(c.Ctrs), trunc(a), trunc(b))
+	}
+	return r
+}
+
+// TestC01Backend decides the last sentence of C01 over the product's own storage backend.
+func TestC01Backend(t *testing.T) {
+	evid.Run(t, "C01", c02Gen, c01BackendCheck)
 }
 
 var _ = fmt.Sprint
